@@ -78,6 +78,11 @@ func hsVariants() []hsVariant {
 	for w := 1; w <= 3; w++ {
 		vs = append(vs, hsVariant{fmt.Sprintf("ows=%d", w), 101, "websocket", "right", id, 0, w})
 	}
+	// a conforming response may carry any number of further headers (cookies, server banners): totals of about 1000, 1024,
+	// 1100, 2100, 5000 and 9000 bytes, i.e. below, at and well beyond any fixed-size receive buffer
+	for _, pad := range []int{880, 905, 980, 2000, 4900, 8900} {
+		vs = append(vs, hsVariant{fmt.Sprintf("padding=%d", pad), 101, "websocket", "right", id, 0, 0})
+	}
 	// the Connection header is a token list (RFC 7230 6.1) and not one of the three things the outcome depends on
 	for _, c := range []string{"upgrade", "keep-alive, Upgrade", "Upgrade, keep-alive", "absent"} {
 		vs = append(vs, hsVariant{"connection=" + c, 101, "websocket", "right", id, 0, 0})
@@ -156,6 +161,15 @@ func (v hsVariant) render(key string) []byte {
 			fmt.Fprintf(&sb, "%s:  %s\r\n", name, h[1])
 		case 3:
 			fmt.Fprintf(&sb, "%s: %s  \r\n", name, h[1])
+		}
+	}
+	if strings.HasPrefix(v.name, "padding=") {
+		var pad int
+		fmt.Sscanf(v.name, "padding=%d", &pad)
+		for i := 0; pad > 0; i++ {
+			n := min(pad, 200)
+			fmt.Fprintf(&sb, "X-Pad-%d: %s\r\n", i, strings.Repeat("p", n))
+			pad -= n
 		}
 	}
 	if v.status != 101 {
@@ -506,7 +520,34 @@ func c18BodyOpt(x *engine.X, onlyFailing bool) {
 		}
 		return n
 	}()
-	if c := x.Deviate(total, "first cut position"); c > 0 {
+	// every position for ordinary responses; for the padded ones (up to 9 kB) a grid: the first 40 bytes, every 61st
+	// byte, the bytes around 1024 / 2048 / 4096 / 8192 (where a receive buffer would fill), and the last 60 bytes
+	positions := make([]int, 0, total)
+	if strings.HasPrefix(v.name, "padding=") {
+		mark := map[int]bool{}
+		for p := 1; p < total; p++ {
+			near := false
+			for _, b := range []int{1024, 2048, 4096, 8192} {
+				if p >= b-4 && p <= b+4 {
+					near = true
+				}
+			}
+			if p <= 40 || p%61 == 0 || near || p >= total-60 {
+				mark[p] = true
+			}
+		}
+		for p := 1; p < total; p++ {
+			if mark[p] {
+				positions = append(positions, p)
+			}
+		}
+	} else {
+		for p := 1; p < total; p++ {
+			positions = append(positions, p)
+		}
+	}
+	if ci := x.Deviate(len(positions)+1, "first cut position"); ci > 0 {
+		c := positions[ci-1]
 		sc.cuts = append(sc.cuts, c)
 		rest := total - c
 		if c2 := x.Deviate((rest+7)/8, "second cut (grid of 8)"); c2 > 0 && c+c2*8 < total {
@@ -838,7 +879,7 @@ func C18(tier string) *engine.Report {
 	fres := c18DialFailDFS(tier).Run()
 	tot.Add(fres, rep)
 	rep.Coverage["dial_failures"] = map[string]any{"executions": fres.Executions, "finished": fres.Exhaustive, "violations": len(fres.Violations)}
-	tot.Fill(rep, "blocking/async x 54 response variants (full product of status x Upgrade x accept; Connection as a token list in either order, lower-case, or absent; near misses of the accept value: case-swapped, lower-cased, truncated, suffixed; header orders, letter cases, optional whitespace around the conforming response) x 0/1/2 piggy-backed frames; deviations: every single cut of response+frames, a second cut on a grid of 8, server close after the first segment, a preceding session on the same stream (failed handshake; dropped with half a frame unread / a pong or a Close(1002) queued but never flushed / a failed write), a free choice for the conforming response; after every upgrade the server must receive exactly the first message the application writes; "+
+	tot.Fill(rep, "blocking/async x 60 response variants (full product of status x Upgrade x accept; Connection as a token list in either order, lower-case, or absent; near misses of the accept value: case-swapped, lower-cased, truncated, suffixed; header orders, letter cases, optional whitespace around the conforming response) x 0/1/2 piggy-backed frames; deviations: every single cut of response+frames, a second cut on a grid of 8, server close after the first segment, a preceding session on the same stream (failed handshake; dropped with half a frame unread / a pong or a Close(1002) queued but never flushed / a failed write), a free choice for the conforming response; after every upgrade the server must receive exactly the first message the application writes; "+
 		"plus ws:// and wss:// against a port nobody listens on / a peer that closes at once / a peer that sends garbage, blocking and async, twice in a row (error, terminated, no panic, census unchanged); the raw server is lock-stepped with the client through SIOCOUTQ/FIONREAD; every case is a real TCP handshake", d.MaxDeviations)
 	rep.Assumptions = append(rep.Assumptions, "SIOCOUTQ==0 on the server socket and FIONREAD==0 on the client socket mean the client has consumed the segment")
 	return rep
